@@ -318,7 +318,319 @@ def gen_c15(seed, tier, start):
     return cs
 
 
+# ---------------------------------------------------------------- resolveType (C16-C20)
+OBJ_KINDS = {"object", "array", "date", "map", "set", "weakmap", "promise", "regexp", "error"}
+ALL_KINDS = {"string", "number", "boolean", "bigint", "symbol", "null", "function"} | OBJ_KINDS
+
+
+def vue_accepts(types, kind):
+    """Vue's validateProp/assertType for a `type` option given as a list of constructor names (None = null)"""
+    if types == [None]:
+        return True                       # `type: null`: no check
+    for t in types:
+        if t is None:
+            ok = kind == "null"
+        elif t in ("String", "Number", "Boolean", "Symbol", "BigInt", "Function"):
+            ok = kind == t.lower()
+        elif t == "Object":
+            ok = kind in OBJ_KINDS
+        elif t == "Array":
+            ok = kind == "array"
+        else:
+            ok = kind == t.lower()        # instanceof Date / Map / ...
+        if ok:
+            return True
+    return False
+
+
+def norm_key(k):
+    kind, text = k
+    if kind == "num":
+        return text[:-2] if text.endswith(".0") else text
+    return text
+
+
+def dc_call(views, which):
+    calls = (views or {}).get(which) or []
+    return calls[0] if calls else None
+
+
+def option_entries(call):
+    """entries of the options object literal (2nd argument) or None"""
+    if not call or len(call["args"]) < 2:
+        return None
+    a = call["args"][1]
+    if isinstance(a, dict) and "object" in a:
+        return a["object"]
+    return None
+
+
+def find_entry(entries, name):
+    for i, e in enumerate(entries or []):
+        if "key" in e and e["key"][0] in ("ident", "str") and e["key"][1] == name:
+            return i, e
+    return None, None
+
+
+def user_wrote(entries, name):
+    for e in entries or []:
+        if "key" in e and e["key"][0] in ("ident", "str") and e["key"][1] == name:
+            return True
+        if e.get("shorthand") == name:
+            return True
+        if "member" in e:
+            return None               # a getter/method whose name the view does not carry: undecided
+    return False
+
+
+def types_ctx(case, side, res):
+    """common preconditions; returns (truth, real_call, input_call) or None when not applicable"""
+    if side.get("status") != "ok" or not res or "views" not in res:
+        return None
+    t = case.get("truth")
+    if not t:
+        return None
+    rc = dc_call(res["views"], "dc_real")
+    ic = dc_call(res["views"], "dc_input")
+    if rc is None or ic is None:
+        return None
+    return t, rc, ic
+
+
+def resolve_on(case):
+    return json.loads(case["options"]).get("resolveType", False)
+
+
+def base_types_judge(case, side, res):
+    v = make_judge(None, None, whole=True)(case, side, res)
+    if res and "views" in res and res["views"].get("dc_same") is False:
+        v["corr_ok"] = False; v["why"] = "defineComponent view of real and model output differ"
+    return v
+
+
+def judge_c16(case, side, res):
+    v = base_types_judge(case, side, res)
+    ctx = types_ctx(case, side, res)
+    v["relevant"] = False
+    if not ctx:
+        return v
+    t, rc, ic = ctx
+    if not (t["augmentable"] and resolve_on(case) and t["setup"] in ("arrow", "function", "async") and t["first"] in ("typed", "destructured", "array")
+            and not t["spreadargs"]):
+        return v
+    if user_wrote(option_entries(ic), "props") is not False:
+        return v
+    v["relevant"] = True
+    ents = option_entries(rc)
+    _, e = find_entry(ents, "props")
+    if e is None or not isinstance(e["value"], dict) or e["value"].get("form") not in ("object", "mergeDefaults"):
+        v["ok"] = False; v["oracle_why"] = "no derived `props` option in the real output"
+        return v
+    got = {}
+    for pe in e["value"]["entries"]:
+        if not isinstance(pe, dict):
+            v["ok"] = False; v["oracle_why"] = "malformed props entry"; return v
+        k = norm_key(pe["key"])
+        if k in got:
+            v["ok"] = False; v["oracle_why"] = "prop %r declared twice" % k; return v
+        got[k] = pe["required"]
+    want = {p[0]: p[1] for p in t["props"]}
+    if got != want:
+        v["ok"] = False
+        v["oracle_why"] = "declared props %s but the call received %s" % (json.dumps(want, sort_keys=True), json.dumps(got, sort_keys=True))
+        if t.get("getter_in_partial") and set(got) == set(want) and all(got[k] == want[k] or (got[k] is True and want[k] is True) for k in want if [p for p in t["props"] if p[0] == k][0][3] != "getter"):
+            v["known"] = "partial_getter"
+    return v
+
+
+def judge_c19(case, side, res):
+    v = base_types_judge(case, side, res)
+    ctx = types_ctx(case, side, res)
+    v["relevant"] = False
+    if not ctx:
+        return v
+    t, rc, ic = ctx
+    if not (t["augmentable"] and resolve_on(case) and t["setup"] in ("arrow", "function", "async") and not t["spreadargs"]):
+        return v
+    if user_wrote(option_entries(ic), "emits") is not False:
+        return v
+    v["relevant"] = True
+    _, e = find_entry(option_entries(rc), "emits")
+    if t["second"] in ("ctx", "destructured"):
+        if e is None or not isinstance(e["value"], dict) or "emits" not in e["value"]:
+            v["ok"] = False; v["oracle_why"] = "SetupContext<E> annotation but no derived `emits`"
+        elif set(e["value"]["emits"]) != set(t["emits"]):
+            v["ok"] = False; v["oracle_why"] = "declared events %s but the call received %s" % (sorted(t["emits"]), sorted(e["value"]["emits"]))
+    else:
+        if e is not None:
+            v["ok"] = False; v["oracle_why"] = "no SetupContext<E> annotation but an `emits` option was added"
+    return v
+
+
+def judge_c17(case, side, res):
+    v = base_types_judge(case, side, res)
+    ctx = types_ctx(case, side, res)
+    v["relevant"] = False
+    if not ctx:
+        return v
+    t, rc, ic = ctx
+    if not (t["augmentable"] and resolve_on(case)) or user_wrote(option_entries(ic), "props") is not False:
+        return v
+    _, e = find_entry(option_entries(rc), "props")
+    if e is None or not isinstance(e["value"], dict) or "entries" not in e["value"]:
+        return v
+    by_key = {p[0]: p for p in t["props"]}
+    for pe in e["value"]["entries"]:
+        if not isinstance(pe, dict):
+            continue
+        p = by_key.get(norm_key(pe["key"]))
+        if not p or p[2] is None:
+            continue                      # outside the property's type grammar
+        v["relevant"] = True
+        kinds = ALL_KINDS if p[2] == "ANY" else (ALL_KINDS - {"null"}) if p[2] == "NONNULL" else set(p[2]) - {"undefined"}
+        bad = sorted(k for k in kinds if not vue_accepts(pe["type"], k))
+        if bad:
+            v["ok"] = False
+            v["oracle_why"] = "prop %s: %s emits type %s, which rejects values of kind %s" % (p[0], p[4], pe["type"], bad)
+            tags = p[5] if len(p) > 5 else []
+            if bad == ["bigint"] and "bigint_lit" in tags and "Number" in (pe["type"] or []):
+                v["known"] = "bigint_literal"
+            elif "any" in tags and None in (pe["type"] or []) and len(pe["type"]) > 1:
+                v["known"] = "union_with_any"
+            elif "empty_obj" in tags and pe["type"] != [None]:
+                v["known"] = "empty_object_in_union"
+            else:
+                v.pop("known", None)
+                return v
+    return v
+
+
+def judge_c18(case, side, res):
+    v = base_types_judge(case, side, res)
+    ctx = types_ctx(case, side, res)
+    v["relevant"] = False
+    if not ctx:
+        return v
+    t, rc, ic = ctx
+    d = t.get("defaults") or {}
+    if not (t["augmentable"] and resolve_on(case) and t["first"] == "typed" and t["setup"] in ("arrow", "function", "async") and not t["spreadargs"]):
+        return v
+    if user_wrote(option_entries(ic), "props") is not False:
+        return v
+    _, e = find_entry(option_entries(rc), "props")
+    if e is None or not isinstance(e["value"], dict):
+        return v
+    v["relevant"] = True
+    form = e["value"].get("form")
+    if d.get("form") == "dynamic":
+        if form != "mergeDefaults":
+            v["ok"] = False; v["oracle_why"] = "the default object is not statically analysable but mergeDefaults is not used"
+        elif any(isinstance(pe, dict) and pe.get("default") is not None for pe in e["value"]["entries"]):
+            v["ok"] = False; v["oracle_why"] = "mergeDefaults used together with static defaults"
+        return v
+    if form != "object":
+        v["ok"] = False; v["oracle_why"] = "static (or no) defaults but the props are wrapped in %s" % form
+        return v
+    per = d.get("per_key", {})
+    for pe in e["value"]["entries"]:
+        if not isinstance(pe, dict):
+            continue
+        k = norm_key(pe["key"])
+        want = per.get(k)
+        got = pe.get("default")
+        if want is None:
+            if got is not None:
+                v["ok"] = False; v["oracle_why"] = "prop %s has no default but one was emitted" % k
+            continue
+        if got is None:
+            v["ok"] = False; v["oracle_why"] = "prop %s: default %s was lost" % (k, want); continue
+        is_fn_prop = pe["type"] == ["Function"]
+        kind = want[0]
+        shape = got[0]
+        if kind == "literal":
+            ok = shape == "literal"
+        elif kind in ("expr", "shorthand"):
+            ok = (shape == "other" or shape == "literal") if is_fn_prop else shape == "arrow-expr"
+        elif kind == "fnvalue":
+            ok = (shape in ("arrow-expr", "function", "arrow-block") and is_fn_prop) or (shape == "arrow-expr" and not is_fn_prop)
+            if is_fn_prop and shape == "arrow-expr":
+                # must be the written arrow itself: its body is the literal 1, not another function
+                ok = isinstance(got[1], dict) and got[1].get("type") != "ArrowFunctionExpression" and got[1].get("type") != "FunctionExpression"
+        elif kind == "getter":
+            ok = shape == "arrow-block"
+        elif kind == "method":
+            ok = shape == "function"
+        else:
+            ok = True
+        if not ok:
+            v["ok"] = False
+            v["oracle_why"] = "prop %s (type %s): default written as %s was emitted as %s" % (k, pe["type"], want, got[0])
+    return v
+
+
+def judge_c20(case, side, res):
+    v = base_types_judge(case, side, res)
+    ctx = types_ctx(case, side, res)
+    v["relevant"] = False
+    if not ctx:
+        return v
+    t, rc, ic = ctx
+    v["relevant"] = True
+    if not (t["prov"] == "named" and resolve_on(case)):
+        if rc != ic:
+            v["ok"] = False; v["oracle_why"] = "a call that is not Vue's defineComponent (provenance %s, resolveType %s) was changed" % (t["prov"], resolve_on(case))
+        return v
+    if t["spreadargs"]:
+        if rc["args"] != ic["args"]:
+            v["ok"] = False; v["oracle_why"] = "a spread argument list was modified"
+        return v
+    ients = option_entries(ic)
+    rents = option_entries(rc)
+    if ients is not None:
+        # every entry the user wrote is still there, in order
+        rest = [e for e in rents or [] if e in ients]
+        if rest != ients:
+            v["ok"] = False; v["oracle_why"] = "entries of the user's options object were dropped or reordered"
+            return v
+        for name in ("props", "emits", "name"):
+            w = user_wrote(ients, name)
+            cnt = sum(1 for e in rents if ("key" in e and e["key"][1] == name) or e.get("shorthand") == name)
+            if w is True and cnt != 1:
+                v["ok"] = False; v["oracle_why"] = "the user wrote `%s` but the output has %d entries for it" % (name, cnt)
+                return v
+        # derived entries must not follow a spread
+        seen_spread = False
+        for e in rents:
+            if "spread" in e:
+                seen_spread = True
+            elif seen_spread and e not in ients:
+                v["ok"] = False; v["oracle_why"] = "a derived option follows a spread of the user's options and overrides it"
+                return v
+    elif len(ic["args"]) >= 2 and ic["args"][1] == "expr":
+        # options given as an expression: it must be spread last
+        if rents is not None and not (rents and "spread" in rents[-1]):
+            v["ok"] = False; v["oracle_why"] = "the user's options expression is not spread after the derived options"
+    # the variable's name is given only to a directly declared component without a name of its own
+    i, ne = find_entry(rents, "name")
+    derived_name = ne is not None and (ients is None or user_wrote(ients, "name") is False) and isinstance(ne["value"], dict) and ne["value"].get("name") == "Comp"
+    want_name = t["declkind"] in (0, 1, 2, 3) and len(ic["args"]) >= 1 and (ients is None or user_wrote(ients, "name") is False)
+    if derived_name and not want_name:
+        v["ok"] = False; v["oracle_why"] = "a component name was injected although the call is not the initialiser of a simple declaration"
+    if want_name and not derived_name and not (len(ic["args"]) >= 2 and ic["args"][1] == "spread"):
+        v["ok"] = False; v["oracle_why"] = "the declared variable's name was not given to the component"
+    return v
+
+
+def gen_types(seed, tier, start, quick=300, thorough=8000):
+    return gen_cases.gen_types_cases(seed, quick if tier == "quick" else thorough, start)
+
+
 PROPS = {
+    "C16": {"gen": gen_types, "judge": judge_c16, "trusted": ["the expected prop map is the one the generator encoded (ground truth independent of the model)"], "assumptions": []},
+    "C17": {"gen": gen_types, "judge": judge_c17, "trusted": ["tools/props.py:vue_accepts is this check's reading of Vue's validateProp/assertType; the kinds of each atom type are the generator's table"], "assumptions": []},
+    "C18": {"gen": gen_types, "judge": judge_c18, "trusted": ["Vue's resolvePropValue: a function default is called as a factory unless the prop's type is exactly Function"], "assumptions": []},
+    "C19": {"gen": gen_types, "judge": judge_c19, "trusted": ["the expected event set is the one the generator encoded"], "assumptions": []},
+    "C20": {"gen": gen_types, "judge": judge_c20, "trusted": ["JavaScript object-literal semantics: later entries and spreads override earlier ones"], "assumptions": []},
     "C07": {
         "gen": lambda seed, tier, start: gen_modules(seed, tier, start, 300, 8000),
         "judge": judge_c07,
